@@ -78,6 +78,7 @@ pub fn write_shards(
     dir: &str,
     prop: &str,
     runner: &str,
+    func: &str,
     ty: &str,
     scope: &str,
     cases: &[String],
@@ -110,7 +111,7 @@ pub fn write_shards(
             s.push_str(c);
         }
         s.push_str("\n].\n");
-        writeln!(s, "Definition result := Eval vm_compute in (mismatches cases).").unwrap();
+        writeln!(s, "Definition result := Eval vm_compute in ({} cases).", func).unwrap();
         writeln!(s, "Print result.").unwrap();
         std::fs::write(&path, s)?;
         out.push((path, lo, hi));
